@@ -23,6 +23,8 @@ type Enc struct {
 	usesDv     bool
 	ghosts     map[string]int
 	cntSeen    map[string]bool
+	foldDefs   []string        // SMT definitions of user fold functions used (step function + declaration), in first-use order
+	foldSeen   map[string]bool
 }
 
 // Probe is a labelled term whose model value is wanted for replay.
@@ -217,6 +219,9 @@ func (o *Obligation) preambleExtras() string {
 	if o.enc.usesDv {
 		b.WriteString(DvAxioms)
 	}
+	for _, d := range o.enc.foldDefs {
+		b.WriteString(d)
+	}
 	return b.String()
 }
 
@@ -242,6 +247,9 @@ func (o *Obligation) Query(prelude string) string {
 	}
 	if o.enc.usesDv {
 		b.WriteString(DvAxioms)
+	}
+	for _, d := range o.enc.foldDefs {
+		b.WriteString(d)
 	}
 	for _, l := range o.enc.lines[:o.At] {
 		b.WriteString(l)
